@@ -500,11 +500,37 @@ def sextetRamp : List Byte :=
     let v := g * 2 ^ 18 + (g + 1) * 2 ^ 12 + (g + 2) * 2 ^ 6 + (g + 3)
     [BitVec.ofNat 8 (v / 2 ^ 16), BitVec.ofNat 8 (v / 2 ^ 8), BitVec.ofNat 8 v]
 
-/-- the types the model fixes, as the harness prints them from the compiled
-declarations (op `widths`): `s4` = signed, 4 bytes -/
-def widthsText : String :=
-  "int:s4 size_t:u8 char:s1 hexascii_encode.size:s4 hexascii_decode.size:s4 hex2half:u1 half2hex:s1 " ++
-  "hex2byte:u1 HIHALF:u1 hex_to_uint8:u1 hex_to_uint16:u2 hex_to_uint32:u4 hex_to_uint64:u8 " ++
-  "igris.hexascii_encode.size:u8 base64_encode.size:u8 base64url_encode.size:u8 string.size:u8"
+/-- the PLATFORM types the model's arithmetic is written for, as the harness prints them (op `widths`):
+`s4` = signed, 4 bytes.  (Round 3b: the types the library declares for its size parameters and helper results
+are not fixed by the property; the harness reports them as tags and judges their consequences by behaviour.) -/
+def widthsText : String := "int:s4 size_t:u8 char:s1 string.size:u8"
+
+/-! ### Round 3b: the fixed-width parsers on a mapped caller buffer
+
+`hexAt` reads a missing character as NUL (`getD`).  The forms below make the reads explicit: `none` = a
+character outside the caller's buffer is read.  Reads in source order (`*(hex + 0)`, `*(hex + 1)`, …). -/
+
+/-- `hex2byte(*(hex + i), *(hex + i + 1))`, both characters must be mapped -/
+def hexAtM (hex : List Byte) (i : Nat) : Option Byte :=
+  match hex[i]?, hex[i + 1]? with
+  | some hi, some lo => some (hex2byte hi lo)
+  | _, _ => none
+
+def hexToUint8M (hex : List Byte) : Option (BitVec 8) := hexAtM hex 0
+
+def hexToUint16M (hex : List Byte) : Option (BitVec 16) :=
+  match hexAtM hex 0, hexAtM hex 2 with
+  | some a, some b => some (ofLanes 16 [b, a])
+  | _, _ => none
+
+def hexToUint32M (hex : List Byte) : Option (BitVec 32) :=
+  match hexAtM hex 0, hexAtM hex 2, hexAtM hex 4, hexAtM hex 6 with
+  | some a, some b, some c, some d => some (ofLanes 32 [d, c, b, a])
+  | _, _, _, _ => none
+
+def hexToUint64M (hex : List Byte) : Option (BitVec 64) :=
+  match hexAtM hex 0, hexAtM hex 2, hexAtM hex 4, hexAtM hex 6, hexAtM hex 8, hexAtM hex 10, hexAtM hex 12, hexAtM hex 14 with
+  | some a, some b, some c, some d, some e, some f, some g, some h => some (ofLanes 64 [h, g, f, e, d, c, b, a])
+  | _, _, _, _, _, _, _, _ => none
 
 end Igris.C18
